@@ -302,7 +302,7 @@ def check_listing(ctx, fb, cfg):
     it = fb.need("rln::public::RLN::get_empty_leaves_indices")
     ctx.touch(it)
     eng = Engine(fb, inline=opaque_rx(r"ZerokitMerkleTree>::|^rln::utils::vec_usize_to_bytes_le$"))
-    oks = [p for p in eng.run(it) if p.kind == "return" and known_ok(eng.value_of(p.store, p.ret)) is True]
+    oks = [p for p in eng.run(it) if p.kind == "return" and known_ok(eng.value_of(p.store, p.ret)) is not False]
     ok = False
     why = "expected one success path"
     if len(oks) == 1:
